@@ -21,7 +21,7 @@ FUNCTIONS = ["ak.ppobj._PPTableImpl.gen_ch_lines", "ak.ppobj._PPTableImpl._make_
 BOUNDS = {
     "quick": {"columns": "1 column: minimum width 0..7 (0..2 for the 5-6 record sets) and maximum width ANY int >= minimum (symbolic, unbounded); 2 columns: minimum 0..3, maximum unbounded; "
                          "4 fields (int, str, enum in each modifier, str with border characters), break-by",
-              "records": "7 record sets of 0..6 records (None, negative ints, empty strings, '|', '+', '-' inside values, unknown enum values)",
+              "records": "8 record sets of 0..6 records (None, negative ints, empty strings, '|', '+', '-' inside values, unknown enum values)",
               "limits": "absent, (a,b) for ALL ints a,b >= 0 (symbolic, unbounded; a,b <= 3 for the 5-6 record sets), (None,b)", "header/footer": "absent, empty, short, longer than the table"},
 }
 BOUNDS["thorough"] = dict(BOUNDS["quick"], columns=BOUNDS["quick"]["columns"].replace("1-2 columns", "1-3 columns").replace("0..6", "0..9"))
@@ -40,6 +40,7 @@ RECORD_SETS = [
     [(None, "x y", 999, "+"), (True, "...", 12345, "....")],
     [(i, "n%d" % (i % 2), 10 if i % 3 else 999, "|" * (i % 3)) for i in range(6)],
     [(1.5, "tab", 10, "q"), (0, "zero", 10, "")],
+    [(1, "a", 20, "x"), (2, "b", 31337, "y"), (3, "c", 20, "z"), (4, "d", 7, "")],       # several different values that are not enum members
 ]
 HEADERS = [None, "", "hd", "a header that is much longer than any table here"]
 FOOTERS = [None, "", "ft", "a footer that is much longer than any table of this check"]
@@ -342,6 +343,8 @@ def jobs(tier: str) -> List[Job]:
         for (f, mod) in colkinds:
             n += 1
             if not t and rs in (0, 6) and (f, mod) not in ((1, 0), (2, 1)):
+                continue
+            if not t and rs == 7 and f != 2:
                 continue
             if not t and rs in (2, 3, 5) and f == 2 and (rs + mod) % 3 != 0:
                 continue
